@@ -1,4 +1,5 @@
 import Qvnt.Props.C17
+import Qvnt.Props.Code.C18
 open Qvnt
 #print axioms C17_process_append
 #print axioms C17_delta_eq
@@ -15,3 +16,6 @@ open Qvnt
 #print axioms C17_finish_shape
 #print axioms C17_rerun
 #print axioms C17_reset_new
+#print axioms C18_code_error_exits_first
+#print axioms C18_code_add_ast
+#print axioms C18_code_new
